@@ -134,13 +134,27 @@ func (p *parser) parseIPv4Number(u *Url, input string) (number int64, validation
 		validationError = true
 		return
 	}
-	if input[0] == '+' || input[0] == '-' {
-		// strconv.ParseInt accepts a sign, an IPv4 number consists of digits only
-		err = strconv.ErrSyntax
-		return
+	for _, c := range []byte(input) {
+		// strconv.ParseInt accepts a sign and reports an overflow before it has seen all characters,
+		// an IPv4 number consists of digits only
+		if !isRadixDigit(c, R) {
+			err = strconv.ErrSyntax
+			return
+		}
 	}
 	number, err = strconv.ParseInt(input, R, 64)
 	return
+}
+
+func isRadixDigit(c byte, radix int) bool {
+	switch radix {
+	case 8:
+		return '0' <= c && c <= '7'
+	case 10:
+		return ASCIIDigit.Test(uint(c))
+	default:
+		return ASCIIHexDigit.Test(uint(c))
+	}
 }
 
 func (p *parser) parseIPv4(u *Url, input string) (string, error) {
